@@ -170,7 +170,8 @@ def run(ctx: Ctx, clauses: set = CLAUSES) -> dict:
         calls.report(ctx, calls.validate(ctx, "TraceCalls", events, env, "replay"), clauses)
         return {}
     extra = bounded(ctx, clauses)
-    ops = wide_ops(ctx)
+    import fuzz
+    ops = fuzz.extend(ctx, wide_ops(ctx), "c04")            # plus coverage-chosen mutants (every branch)
     events = calls.execute(ctx, ops, "wide")
     mism = calls.validate(ctx, "TraceCalls", events, env, "wide", per_shard=20000)
     calls.report(ctx, mism, clauses)
